@@ -97,7 +97,7 @@ func c13apply(state map[string]map[string]any, d c13doc) (failed bool, verbs []s
 		}
 		delete(state, key)
 	case "MergePatch", "JSONPatch":
-		verbs = append(verbs, "patch")
+		verbs = append(verbs, "patch"+c13sub(d))
 		cur, exists := state[key]
 		if !exists {
 			return d["ignoreMissingObject"] != true, verbs
@@ -157,14 +157,23 @@ func c13apply(state map[string]map[string]any, d c13doc) (failed bool, verbs []s
 		}
 		nobj = c13norm(nobj).(map[string]any)
 		if vlib.JSON(nobj) != vlib.JSON(c13norm(cur)) {
-			verbs = append(verbs, "update")
+			verbs = append(verbs, "update"+c13sub(d))
 			state[key] = nobj
 		} else {
 			// an Update with identical content is harmless and not forbidden by the statement
-			verbs = append(verbs, "update?")
+			verbs = append(verbs, "update"+c13sub(d)+"?")
 		}
 	}
 	return false, verbs
+}
+
+// c13sub: a patch operation with `subresource` writes to that subresource of the object (the write action carries
+// it; on the fake cluster the stored object looks the same either way, so the action log is where it shows).
+func c13sub(d c13doc) string {
+	if s, _ := d["subresource"].(string); s != "" {
+		return ":" + s
+	}
+	return ""
 }
 
 func c13render(docs []c13doc, mode string) string {
@@ -237,7 +246,11 @@ func c13execute(initial map[string]map[string]any, stream string) (r c13run) {
 			r.Panic = p
 		}
 		for _, a := range fdc.Actions() {
-			r.Verbs = append(r.Verbs, a.GetVerb())
+			verb := a.GetVerb()
+			if sr := a.GetSubresource(); sr != "" && verb != "get" {
+				verb += ":" + sr
+			}
+			r.Verbs = append(r.Verbs, verb)
 			switch a.GetVerb() {
 			case "create", "update", "patch", "delete":
 				r.Mutating++
@@ -313,6 +326,11 @@ func TestC13(t *testing.T) {
 				}
 				if rng.IntN(3) == 0 {
 					d["apiVersion"] = "v1"
+				}
+				if (c.Index+i)%3 == 0 {
+					// (no draw from rng: the streams of the earlier cases stay what they were)
+					d["subresource"] = "status"
+					res.Count("patch_operations_with_subresource", 1)
 				}
 			}
 			kinds[d["operation"].(string)] = true
